@@ -400,6 +400,11 @@ type execOpts struct {
 	mark   int                       // offset; -1: none
 	onMark func(v *vm.VM, w *walker) // called (once) before the instruction at mark executes
 	w      *walker
+	// several scripts (xscript part): the harness's loader and, per script hash
+	// of a loaded script, its instruction boundaries (len+1 entries; nil entry
+	// = script did not pass the static check, offsets not asserted).
+	tbl      []loaded // scripts the harness's SYSCALL handler can load (nil: no handler)
+	boundsBy map[util.Uint160][]bool
 }
 
 func price(base int64) func(opcode.Opcode, []byte) int64 {
@@ -458,15 +463,24 @@ func exec(script []byte, c cfg, o execOpts) (res result) {
 		npre   int
 		atEnd  bool
 	)
-	v.SetOnExecHook(func(_ util.Uint160, ip int, op opcode.Opcode) {
+	v.SetOnExecHook(func(h util.Uint160, ip int, op opcode.Opcode) {
 		hookIP, hookOp = ip, op
-		if o.bounds != nil && (ip < 0 || ip >= len(o.bounds) || !o.bounds[ip]) && offB < 0 {
+		b, n := o.bounds, len(script)
+		if o.boundsBy != nil {
+			if bb, ok := o.boundsBy[h]; ok { // an instruction of a loaded script
+				b, n = bb, len(bb)-1
+			}
+		}
+		if b != nil && (ip < 0 || ip >= len(b) || !b[ip]) && offB < 0 {
 			offB = ip
 		}
-		if ip < len(script) && c.Base > 0 {
+		if ip < n && c.Base > 0 {
 			own += fee.Opcode(c.Base, op)
 		}
 	})
+	if o.tbl != nil {
+		v.SyscallHandler = loader(o.tbl)
+	}
 	v.Load(script)
 	fail := func(kind, msg string) {
 		if res.F == nil {
